@@ -89,14 +89,11 @@ Definition cross_summary (dbg : bool) (root : ainv) (found : list (N * ainv)) : 
   (cross_sites dbg root (filter head_accepted found) [],
    match object_cross_check dbg root found with XOk n => n | XPanic s => 1000 + site_n s | XFuel => 2000 end).
 
-(** ** classifier front-ends for arbitrary mutants (the classes blank-id, version-gap and
-    wide-padding were repaired in /repo: no front-end, a failure there is a violation) *)
+(** ** classifier front-end for arbitrary mutants (the classes blank-id, version-gap, wide-padding,
+    empty-pps-debug, empty-manifest-entry and uri-colon-segment were repaired in /repo: no
+    front-end, a failure there is a violation) *)
 
 Definition known_quadratic (slashes len : N) : bool := c17_quadratic_path slashes len.
-(** manifest given by the lengths of its arrays *)
-Definition known_empty_entry (lens : list N) : bool :=
-  c17_empty_manifest_entry (mkI 0 0 [] (map (fun n => (0, if n =? 0 then [] else [(0, 0)])) lens)).
-Definition known_empty_pps (dbg : bool) (inv : ainv) : bool := c17_empty_pps dbg inv.
 
 (** release CLI: only panic / no panic is observed *)
 Definition check_visit_panic (items : list item) (obs_panic : bool) : bool :=
@@ -104,4 +101,28 @@ Definition check_visit_panic (items : list item) (obs_panic : bool) : bool :=
 Definition check_cross_panic (dbg : bool) (root : ainv) (found : list (N * ainv)) (obs : N) : bool :=
   let s := cross_sites dbg root (filter head_accepted found) [] in
   if obs =? 0 then is_nil s else existsb (N.eqb obs) s.
-Definition known_colon_uri (s : bytes) : bool := c17_colon_uri s.
+
+(** ** the guard of is_uri (serde.rs:1324-1336): W005 for "id", W009 for a user "address" *)
+
+(** the string the visitor hands to is_uri for "id": the value of the first "id" key, when the
+    field loop gets there and the value is a string (serde.rs:184-201) *)
+Fixpoint id_read (st : pst) (items : list item) : option bytes :=
+  match items with
+  | [] => None
+  | it :: rest =>
+      match it, p_id st with
+      | IId (SStr s), None => Some s
+      | _, _ => match step st it with inl st' => id_read st' rest | inr _ => None end
+      end
+  end.
+
+(** [obs] = W005 was reported for the root inventory.  Blank or unread id: no W005; an id that
+    fails the scheme test: W005; otherwise the third-party parser decides (not modelled) *)
+Definition check_w005 (items : list item) (obs : bool) : bool :=
+  match id_read p0 items with
+  | None => negb obs
+  | Some s => if is_nil' s then negb obs else if uri_guard s then true else obs
+  end.
+
+(** one value handed to is_uri whose warning (W005 / W009) was observed or not *)
+Definition check_uri_warned (s : bytes) (obs : bool) : bool := if uri_guard s then true else obs.
